@@ -68,6 +68,8 @@ pub struct Run {
     pub seed: i64,
     pub start: Instant,
     replay_mode: Option<String>,
+    shard: (usize, usize),
+    shard_out: Option<String>,
     sigs: Mutex<BTreeMap<String, Sig>>,
     known: Vec<KnownEntry>,
     caps_hit: Mutex<Vec<String>>,
@@ -117,7 +119,14 @@ impl Run {
         }
         let seed = std::env::var("VERIF_SEED").ok().and_then(|s| s.parse().ok()).unwrap_or(0);
         let known = load_known(property);
+        let shard = std::env::var("VH_SHARD").ok().and_then(|v| {
+            let (a, b) = v.split_once('/')?;
+            Some((a.parse().ok()?, b.parse().ok()?))
+        });
+        let shard_out = std::env::var("VH_SHARD_OUT").ok();
         Run {
+            shard: shard.unwrap_or((0, 1)),
+            shard_out,
             property: property.to_string(),
             level: level.to_string(),
             tier,
@@ -130,6 +139,84 @@ impl Run {
             infos: Mutex::new(BTreeMap::new()),
             machinery_errors: Mutex::new(Vec::new()),
         }
+    }
+
+    /// (index, count) of this process among the worker processes (0,1 when not sharded).
+    pub fn shard(&self) -> (usize, usize) {
+        self.shard
+    }
+    /// Is work item `i` this process's share?
+    pub fn mine(&self, i: usize) -> bool {
+        i % self.shard.1 == self.shard.0
+    }
+    pub fn is_child(&self) -> bool {
+        self.shard_out.is_some()
+    }
+    /// Parent: run `n` copies of this executable as worker processes (`VH_SHARD=i/n`), merge their
+    /// violations / infos / caps / machinery errors into this run and return their coverage maps.
+    /// Child: returns None — do the share of work selected by `mine()` and call `finish()` as usual.
+    /// Threads inside one process contend on process-wide kernel locks (mmap/mlock); processes do not.
+    pub fn fan_out(&self, n: usize) -> Option<Vec<Map<String, Value>>> {
+        if self.is_child() {
+            return None;
+        }
+        let exe = std::env::current_exe().unwrap_or_else(|e| machinery_exit(&format!("current_exe: {e}")));
+        let args: Vec<String> = std::env::args().skip(1).collect();
+        let dir = format!("/dev/shm/vh-shards-{}-{}", self.property, std::process::id());
+        let _ = std::fs::create_dir_all(&dir);
+        let mut kids = Vec::new();
+        for i in 0..n {
+            let out = format!("{dir}/{i}.json");
+            let child = std::process::Command::new(&exe)
+                .args(&args)
+                .env("VH_SHARD", format!("{i}/{n}"))
+                .env("VH_SHARD_OUT", &out)
+                .env("VERIF_JOBS", "1")
+                .stdout(std::process::Stdio::null())
+                .spawn()
+                .unwrap_or_else(|e| machinery_exit(&format!("spawn worker: {e}")));
+            kids.push((child, out));
+        }
+        let mut covs = Vec::new();
+        for (i, (mut child, out)) in kids.into_iter().enumerate() {
+            let st = child.wait().unwrap_or_else(|e| machinery_exit(&format!("wait worker: {e}")));
+            let txt = std::fs::read_to_string(&out).unwrap_or_default();
+            let v: Value = match serde_json::from_str(&txt) {
+                Ok(v) => v,
+                Err(_) => {
+                    self.machinery_error(format!("worker {i}/{n} produced no result (exit {st})"));
+                    continue;
+                }
+            };
+            if let Some(arr) = v["sigs"].as_array() {
+                let mut sigs = self.sigs.lock().unwrap();
+                for s in arr {
+                    let key = s["key"].as_str().unwrap_or("").to_string();
+                    let count = s["count"].as_u64().unwrap_or(1);
+                    match sigs.get_mut(&key) {
+                        Some(e) => e.count += count,
+                        None => {
+                            let features: BTreeMap<String, String> = serde_json::from_value(s["features"].clone()).unwrap_or_default();
+                            sigs.insert(key, Sig { first: Violation { clause: s["clause"].as_str().unwrap_or("").into(), features, witness: s["witness"].clone(), what: s["what"].as_str().unwrap_or("").into() }, count });
+                        }
+                    }
+                }
+            }
+            if let Some(m) = v["infos"].as_object() {
+                for (k, n) in m {
+                    self.info_n(k, n.as_u64().unwrap_or(0));
+                }
+            }
+            for c in v["caps"].as_array().cloned().unwrap_or_default() {
+                self.cap_hit(c.as_str().unwrap_or("").to_string());
+            }
+            for c in v["merrs"].as_array().cloned().unwrap_or_default() {
+                self.machinery_error(format!("worker {i}: {}", c.as_str().unwrap_or("")));
+            }
+            covs.push(v["coverage"].as_object().cloned().unwrap_or_default());
+        }
+        let _ = std::fs::remove_dir_all(&dir);
+        Some(covs)
     }
 
     pub fn replay_file(&self) -> Option<&str> {
@@ -196,6 +283,16 @@ impl Run {
         let caps = self.caps_hit.into_inner().unwrap();
         let infos = self.infos.into_inner().unwrap();
         let merrs = self.machinery_errors.into_inner().unwrap();
+        if let Some(out) = &self.shard_out {
+            let part = json!({
+                "sigs": sigs.iter().map(|(k, s)| json!({"key": k, "count": s.count, "clause": s.first.clause, "features": s.first.features, "witness": s.first.witness, "what": s.first.what})).collect::<Vec<_>>(),
+                "infos": infos, "caps": caps, "merrs": merrs, "coverage": coverage,
+            });
+            if let Err(e) = std::fs::write(out, serde_json::to_string(&part).unwrap()) {
+                machinery_exit(&format!("cannot write shard result {out}: {e}"));
+            }
+            std::process::exit(0);
+        }
         let mut known_seen: BTreeMap<usize, u64> = BTreeMap::new();
         let mut unlisted: Vec<(&String, &Sig)> = Vec::new();
         for (key, sig) in &sigs {
@@ -495,6 +592,21 @@ impl Distinct {
     pub fn evaluations(&self) -> u64 {
         self.evals.load(Ordering::Relaxed)
     }
+    /// For worker processes: put under coverage key "_distinct" so the parent can union the sets.
+    pub fn export(&self) -> Value {
+        json!({"evals": self.evaluations(), "set": self.set.lock().unwrap().iter().copied().collect::<Vec<u64>>()})
+    }
+    pub fn import(&self, v: &Value) {
+        self.evals_add(v["evals"].as_u64().unwrap_or(0));
+        if let Some(a) = v["set"].as_array() {
+            let mut s = self.set.lock().unwrap();
+            for x in a {
+                if let Some(h) = x.as_u64() {
+                    s.insert(h);
+                }
+            }
+        }
+    }
     pub fn distinct(&self) -> u64 {
         self.set.lock().unwrap().len() as u64
     }
@@ -575,6 +687,11 @@ pub fn alloc_peak_since(mark: isize) -> isize {
 
 pub fn hex_short(b: &[u8]) -> String {
     hex::encode(&b[..b.len().min(4)])
+}
+
+/// Sum a numeric coverage field over worker results.
+pub fn sum_cov(covs: &[Map<String, Value>], key: &str) -> u64 {
+    covs.iter().map(|c| c.get(key).and_then(|v| v.as_u64()).unwrap_or(0)).sum()
 }
 
 pub fn cov(pairs: Vec<(&str, Value)>) -> Map<String, Value> {
